@@ -107,7 +107,7 @@ def main():
     nm = S.Namer("L")
 
     # ---------- (1) what prophyc accepts must be realisable by every back-end
-    cases = codec.gen_schemas(chk.tier, chk.seed, want_random=70 if quick else 2500, k=2)
+    cases = codec.gen_schemas(chk.tier, chk.seed, want_random=70 if quick else 600, k=2)
     if quick:
         cases = [c for i, c in enumerate(cases) if c[0] != "exhaustive" or i % 14 == 0]
     extra = [("corpus", f, t) for pid in ("C12", "C04", "C03") for f, t, vs, j in codec.load_corpus(pid)]
@@ -169,7 +169,7 @@ def main():
         for r2, t2 in embed(rng, rule, bt, nm):
             bcases.append((r2, t2))
     # rule-breaking edits of generated valid structs: append a member after a greedy tail, wrap dynamic ones in fixed arrays ...
-    for stream, label, t in cases[:200 if quick else 2000]:
+    for stream, label, t in cases[:200 if quick else 800]:
         s_ = S.stiffness(t)
         if s_ == 2:
             bcases.append(("member after an unlimited member [%s]" % label, S.mk_struct(nm('X'), [('m', 'plain', t), ('z', 'plain', sc('u8'))])))
